@@ -164,14 +164,21 @@ class Typer:
             return ('idx', it if it is not None else U('enumerate'), None)
         if h in ('keyof',):
             t = s.ty(at[2])
+            if t[0] == 'items': t = t[1]
+            if t[0] == 'dictmap': return ('lab', t[1])
             return ('lab', ('ORD', t[1])) if t[0] == 'dict' else unk('keyof')
-        if h in ('valof',): return NUM
+        if h in ('valof',):
+            t = s.ty(at[2])
+            if t[0] == 'items': t = t[1]
+            if t[0] == 'dictmap': return ('idx', t[1], None)          # the (label, index) pairs of a label mapping
+            return NUM
         if h == 'matmul':
             a, b = s.ty(at[1]), s.ty(at[2])
             if a[0] == 'arr' and b[0] == 'arr' and a[1] and b[1]:
                 s.ob('matmul', same(a[1][-1], b[1][0]), f"{show(a[1][-1])} contracted with {show(b[1][0])}", repr(at)[:80], (a[1][-1], b[1][0]))
                 return ('arr', tuple(a[1][:-1]) + tuple(b[1][1:]))
             return unk('matmul')
+        if h == 'ix_': return ('ix', [s.ty(a) for a in at[1:]])
         if h == 'T':
             a = s.ty(at[1])
             return ('arr', tuple(reversed(a[1]))) if a[0] == 'arr' else a
@@ -402,6 +409,12 @@ class Typer:
                 b = targs[1]
                 s.ob('matmul', same(a[1][-1], b[1][0]), f"{show(a[1][-1])} contracted with {show(b[1][0])}", repr(at)[:80], (a[1][-1], b[1][0]))
                 return ('arr', tuple(a[1][:-1]) + tuple(b[1][1:]))
+            if fn == 'lsim' and (kw.get('U') is not None or kw.get('T') is not None or kw.get('system') is not None):
+                # scipy.signal.lsim(system, U, T, X0): keyword spelling of the same call
+                names_ = ['system', 'U', 'T', 'X0']
+                args = list(args) + [kw[n_] for n_ in names_[len(args):] if n_ in kw]
+                targs = [s.ty(a_) for a_ in args]
+                a = targs[0] if targs else NUM
             if fn == 'lsim' and len(args) >= 3:
                 sysk = args[0]
                 mats = None
@@ -429,6 +442,7 @@ class Typer:
         if isinstance(callee, tuple) and callee[:1] == ('.',):
             b = s.any(callee[1]); m = callee[2]
             targs = [s.ty(a) for a in args]
+            if m in ('tolist', 'copy') and b[0] in ('arr', 'idxs', 'labs'): return b
             if m == 'index' and targs and b[0] in ('labs', 'idxs', 'tuple'):
                 if b[0] == 'idxs':
                     if targs[0][0] == 'idx':
@@ -522,6 +536,7 @@ class Typer:
 
     def stack(s, kind, parts, text):
         ts = [s.ty(p) for p in parts]
+        ts = [('arr', (s.iter_space(t),)) if t[0] in ('vals', 'labs', 'idxs') and s.iter_space(t) is not None else t for t in ts]      # a plain list is a vector on the space it lists
         ts = [t for t in ts if t[0] == 'arr' or t[0] == 'rows']
         if not ts or len(ts) != len(parts): return unk(kind)
         norm = []
@@ -587,7 +602,7 @@ class Typer:
         if tag in ('np.flatnonzero', 'np.nonzero', 'np.where'):
             a = s.ty(k[2])
             if a[0] == 'arr' and len(a[1]) == 1:
-                sel = ('SUB', a[1][0], 'data-dependent-mask#' + str(next(_cnt)))
+                sel = ('SUB', a[1][0], 'filter:?#' + _h(k[2]))       # the positions where one given mask holds: the same mask, the same subset
                 return ('idxs', a[1][0], sel)
             return unk(tag)
         if tag in ('np.any', 'np.all'):
